@@ -174,6 +174,7 @@ def _run_all(tier):
     seqs = _sequences(max_len)
     n_chunks = 64 if tier == "quick" else 256
     chunks = [seqs[i::n_chunks] for i in range(n_chunks)]
+    import mokapot.parsers.fasta                        # noqa: F401  (imported once, before the workers fork)
     with multiprocessing.Pool(min(16, multiprocessing.cpu_count())) as pool:
         parts = pool.map(_work, chunks)
     calls = sum(p[0] for p in parts)
